@@ -129,8 +129,9 @@ func (t *RuntimeType) Default() px.Type {
 
 func (t *RuntimeType) Equals(o interface{}, g px.Guard) bool {
 	if ot, ok := o.(*RuntimeType); ok && t.runtime == ot.runtime && t.name == ot.name {
-		if t.pattern == nil {
-			return ot.pattern == nil
+		if t.pattern == nil || ot.pattern == nil {
+			// a nil pattern inside an interface is not a nil interface: RegexpType.Equals would dereference it
+			return t.pattern == nil && ot.pattern == nil
 		}
 		return t.pattern.Equals(ot.pattern, g)
 	}
